@@ -169,7 +169,9 @@ pub fn build_cfg_at(kind: &str, rng: &mut Rng, leaf0: usize, fs0: usize, with_sp
         lines.push(cfg_line(who, format!("fs {} {}", id, rest)));
         id
     };
-    let alt_roots = ["", "/r", "/r/s", "/r/s/t.u"];
+    // roots that repeat the leading components of the paths the caller will use (/a, /a/a, /c …): an
+    // inner path then looks like a descendant of the outer one
+    let alt_roots = ["", "/r", "/r/s", "/r/s/t.u", "/a", "/a/a", "/c/d"];
     let mut overlay_upper = None;
     let target;
     let mut abstract_content = Content::new();
